@@ -49,7 +49,9 @@ RULE = ("one case = one FTP session of ~30 commands generated from (seed, index)
         "of a model of the working directory: exact relative/absolute-virtual escapes to sibling "
         "directories sharing the root's name prefix (root-secret, rootX, pub-private), to decoys "
         "and to the process cwd, '..' runs longer than the depth, real absolute paths, '.'/empty "
-        "segments, NUL, backslashes, %-encoded and decorated dots, globs, '~', 255..5000 character "
+        "segments, NUL, backslashes, %-encoded dots, '..' decorated with every single byte 0x00-0xff "
+        "(prefix, suffix, between the dots; round-robin so a quick run covers them all) and with invalid/overlong "
+        "UTF-8, aimed at the prefix-sharing siblings directly (LIST/RETR/SIZE...) and via CWD + relative operations, globs, '~', 255..5000 character "
         "names, 40..200-deep paths, and benign names so that state (cwd, created files) evolves.  "
         "Reactor = index mod 4 (one server subprocess per reactor and shard).  Distinct = the exact command list; non-trivial = at "
         "least one escape attempt (argument lexically resolving outside the root) and at least "
@@ -217,6 +219,67 @@ OBFUSCATED_DOTS = ["..\\", "%2e%2e", "%2E%2E", "..;", ". .", "...", "....", "..\
                    "\xc0\xae\xc0\xae", "..\t", ".\0.", "..\n", "\r..", "..?", "..*"]
 
 
+def _dot_variants():
+    """'..' decorated with every single extra byte (prefix, suffix, between the dots) and with short
+    invalid / overlong UTF-8 sequences: segments that are ordinary names for a correct resolver but
+    turn into '..' under any lossy re-decoding, stripping or truncation after the resolution."""
+    v = []
+    for b in range(256):
+        c = chr(b)
+        if c != "/":
+            v += [c + "..", ".." + c, "." + c + "."]
+    v += ["\xc0\xae\xc0\xae", "\xc0\xae.", ".\xc0\xae", "\xe0\x80\xae\xe0\x80\xae", "\xf0\x80\x80\xae\xf0\x80\x80\xae",
+          "\xc3..", "..\xc3", "\xf0..", "..\xf0", "\xf0\x9f..", "..\xf0\x9f\x98", "\xed\xa0\x80..", "..\xed\xa0\x80", "\xed\xb0\x80..",
+          "\xff..\xff", "\xff.\xff.\xff", "\xc3.\xc3.", ".\xed\xa0\x80.", "\xef\xbb\xbf..", "..\xef\xbf\xbe", "\x80..", "..\xbf\xbf",
+          "\xc2\xa0..", "..\xc2\xa0", "%c0%ae%c0%ae", "..%c0%af", "..%00", "%2e%2e%ff", "..\0\xff", "\xfe\xff..", ".\x00\x00."]
+    return v
+
+
+DOT_VARIANTS = _dot_variants()
+# (directory outside the root reachable with ONE parent reference, a file in it); the first ones
+# share the root directory's name as a prefix (root / root-secret / rootX, pub / pub-private)
+SIBLINGS = {"rw": [("root-secret", "secret.txt"), ("rootX", "secret.txt"), ("root-secret/dir", "x.txt"), ("outside", "sentinel.txt"),
+                   ("pub", "index.txt"), ("etc", "passwd")],
+            "anon": [("pub-private", "secret.txt"), ("pub-private", "secret.txt"), ("home", "notes.txt"), ("home/sub", "a.txt"),
+                     ("empty", "")]}
+
+
+def decorated_piece(rng, kind, index, piece, cwd, cwd_ups):
+    """Commands of one decorated-dot probe.  The decoration is picked round-robin from (index, piece)
+    so that a quick run (300 sessions x 4 pieces) walks through all of DOT_VARIANTS.  Returns
+    (commands, new model cwd, new cwd_ups)."""
+    D = DOT_VARIANTS[(index * 4 + piece) % len(DOT_VARIANTS)]
+    sib, fname = SIBLINGS[kind][rng.randrange(len(SIBLINGS[kind])) if rng.random() < 0.4 else rng.randrange(2)]
+    target = sib + ("/" + fname if fname and rng.random() < 0.7 else "")
+    noise = rng.choice(["", "", chr(rng.randrange(256)).replace("/", "") + "./", "./", "." + chr(rng.randrange(128, 256)) + "/"])
+    inside = sorted(x for x in inside_names(kind) if "." not in x and "/" not in x)
+
+    def ro(arg):
+        verb = rng.choice(["LIST", "RETR", "SIZE", "NLST", "MDTM", "RETR", "LIST"])
+        return (["PASV"] if verb in TRANSFER else []) + [verb + " " + arg]
+
+    if piece == 0:  # directly as the argument, relative to the model cwd
+        return ro("/".join([D] * (len(cwd) + 1)) + "/" + noise + target), cwd, cwd_ups
+    if piece == 1:  # absolute-virtual, optionally through an existing directory
+        d = rng.choice(inside) if inside and rng.random() < 0.4 else None
+        return ro("/" + (d + "/" + D + "/" if d else "") + D + "/" + noise + target), cwd, cwd_ups
+    if piece == 3:  # from depth one: two decorated segments
+        if not inside:
+            return [], cwd, cwd_ups
+        d = rng.choice(inside)
+        return ["CWD /" + d] + ro(D + "/" + noise + D + "/" + target), [d], cwd_ups
+    # piece 2: CWD through the decorated segment, then plain relative operations from there
+    if cwd_ups + 2 > MAX_UPS_DESTRUCTIVE:
+        return [], cwd, cwd_ups
+    cmds = ["CWD /", "CWD " + D + "/" + sib, "PWD", "PASV", "LIST", "PASV", "NLST"]
+    if fname:
+        cmds += ["PASV", "RETR " + fname, "SIZE " + fname]
+    k = rng.randrange(1000)
+    cmds += rng.choice([["DELE " + (fname or "x")], ["MKD new-%d" % k], ["PASV", "STOR new-%d" % k],
+                        ["RNFR " + (fname or "x"), "RNTO moved-%d" % k], ["RMD dir"], []])
+    return cmds + ["CWD /"], [], cwd_ups + max(1, count_ups(D))
+
+
 def hostile_path(rng, kind, cwd, destructive, max_ups=MAX_UPS_DESTRUCTIVE):
     """One path argument.  `cwd` is the generator's model of the virtual working directory.
     destructive=True: no system absolute paths and at most max_ups parent references."""
@@ -257,7 +320,7 @@ def hostile_path(rng, kind, cwd, destructive, max_ups=MAX_UPS_DESTRUCTIVE):
             p = p.replace("../", "../" + posixpath.basename(root_f) + "/../", 1) if p.startswith("../") else p
         m = rng.random()
         if m < 0.12:
-            p = p.replace("..", rng.choice(OBFUSCATED_DOTS), rng.choice([1, 99]))
+            p = p.replace("..", rng.choice(OBFUSCATED_DOTS + DOT_VARIANTS if rng.random() < 0.5 else OBFUSCATED_DOTS), rng.choice([1, 99]))
         elif m < 0.20:
             p = p.replace("/", "\\")
         elif m < 0.40:  # sprinkle no-op segments
@@ -291,8 +354,11 @@ def hostile_path(rng, kind, cwd, destructive, max_ups=MAX_UPS_DESTRUCTIVE):
 
 
 def count_ups(p):
-    """Conservative count of parent references in an argument ('/' and '\\' both separate)."""
-    return sum(1 for s in re.split(r"[/\\]", p) if ".." in s)
+    """Conservative count of segments that could act as a parent reference under any lossy decoder
+    ('/' and '\\' both separate): two dots anywhere in the segment, also overlong / %-encoded ones."""
+    def dots(s):
+        return s.count(".") + s.count("\xc0\xae") + s.count("\xe0\x80\xae") + s.count("\x80\x80\xae") + s.lower().count("%2e") + s.lower().count("%c0%ae")
+    return sum(1 for s in re.split(r"[/\\]", p) if dots(s) >= 2)
 
 
 def gen_session(rng, index, nshards):
@@ -308,8 +374,12 @@ def gen_session(rng, index, nshards):
     cwd, cwd_ups = [], 0
     dirs = set(x for x in inside_names(kind) if "." not in x)
     n = 30
+    pieces = dict(zip(rng.sample(range(30), 4), range(4)))  # when to run the four decorated-dot probes
     while n > 0:
         n -= 1
+        if n in pieces:
+            more, cwd, cwd_ups = decorated_piece(rng, kind, index, pieces[n], cwd, cwd_ups)
+            cmds += more
         r = rng.random()
         if r < 0.04:
             # no "TYPE A": ASCII-mode RETR raises TypeError in ASCIIConsumerWrapper.write on Python 3 and
